@@ -136,6 +136,62 @@ impl Target for PyTarget {
     }
 }
 
+// ------------------------------------------------------------------------------------- Java
+
+pub struct JavaTarget {
+    pub classpath: std::path::PathBuf,
+    pipe: Pipe,
+}
+
+impl JavaTarget {
+    pub fn new(classpath: &std::path::Path) -> Result<JavaTarget, String> {
+        Ok(JavaTarget { classpath: classpath.to_path_buf(), pipe: Self::spawn(classpath)? })
+    }
+    fn spawn(cp: &std::path::Path) -> Result<Pipe, String> {
+        let mut c = Command::new("java");
+        c.arg("-Xss64m").arg("-Xmx1g").arg("-XX:+UseSerialGC").arg("-cp").arg(cp).arg("Driver");
+        Pipe::spawn(c)
+    }
+}
+
+impl Target for JavaTarget {
+    fn dec(&mut self, di: usize, ty: &str, _root: &str, b: &[u8]) -> RDec {
+        match self.pipe.call(&["D", &format!("p{di}"), ty, &hex(b)]) {
+            Err(e) => RDec::Crash(e),
+            Ok(p) => match p.first().map(|s| s.as_str()) {
+                Some("OK") if p.len() >= 4 => RDec::Ok {
+                    class: p[1].clone(),
+                    value: serde_json::from_str(&p[2]).unwrap_or(Value::Null),
+                    reser: if p[3].starts_with("EXC:") { Err(p[3].clone()) } else { Ok(unhex(&p[3])) },
+                    size: Err("-".into()),
+                },
+                Some("ERR") if p.len() >= 3 => {
+                    if p[1].starts_with("driver:") {
+                        RDec::Crash(format!("{} {}", p[1], p.get(3).cloned().unwrap_or_default()))
+                    } else {
+                        RDec::Err { class: p[1].clone(), proper: true, msg: p.get(3).cloned().unwrap_or_default() }
+                    }
+                }
+                _ => RDec::Crash(format!("protocol: {:?}", p)),
+            },
+        }
+    }
+    fn enc(&mut self, di: usize, ty: &str, v: &Value) -> REnc {
+        match self.pipe.call(&["E", &format!("p{di}"), ty, &v.to_string()]) {
+            Err(e) => REnc::Crash(e),
+            Ok(p) => match p.first().map(|s| s.as_str()) {
+                Some("OK") if p.len() >= 2 => REnc::Ok { bytes: unhex(&p[1]), size: Err("-".into()) },
+                Some("ERR") if p.len() >= 2 => REnc::Err { class: p[1].clone(), msg: p.get(3).cloned().unwrap_or_default() },
+                _ => REnc::Crash(format!("protocol: {:?}", p)),
+            },
+        }
+    }
+    fn restart(&mut self) -> Result<(), String> {
+        self.pipe = Self::spawn(&self.classpath)?;
+        Ok(())
+    }
+}
+
 // ------------------------------------------------------------------------------------- oracles
 
 #[derive(Clone, Debug)]
@@ -188,9 +244,35 @@ pub fn check_dec(be: Backend, r: &Ref, ty: &str, b: &[u8], single_fault: bool, g
             res.fails.push(rf("decode", "crash", m.clone()));
             res.outcome = "crash".into();
         }
+        RDec::Err { class, .. } if class == "NoDeclaredFromBytes" => {
+            // Java: an intermediate abstract class declares no fromBytes(byte[]) of its own
+            res.outcome = "skipped:no-fromBytes-declared".into();
+        }
         RDec::Err { class, proper, msg } => {
             match &ref_asked {
-                Ok((rv, _)) => res.fails.push(rf("decode", format!("rejects-where-R-accepts:{class}"), format!("reference value {rv}; {msg}"))),
+                Ok((rv, _)) => {
+                    // Java parents dispatch eagerly: when a child's constraints match but the payload does not parse
+                    // as that child, throwing is "rejecting what the reference rejects" (as that child)
+                    let mut excused = false;
+                    if be == Backend::Java {
+                        let mut nodes = r.d.descendants_of(&asked);
+                        nodes.retain(|x| {
+                            let xf = r.flat(x);
+                            let af = r.flat(&asked);
+                            xf.cons.iter().filter(|(k, _)| !af.cons.contains_key(*k)).all(|(k, v)| rv.get(k).map(|g| g.as_u64() == Some(*v)).unwrap_or(true))
+                        });
+                        excused = nodes.iter().any(|x| {
+                            let mut e3 = Events::new();
+                            r.decode(x, b, true, &mut e3).is_err()
+                        });
+                    }
+                    if excused {
+                        res.outcome = format!("reject:matching-child-malformed:{class}");
+                        res.nontrivial = true;
+                        return res;
+                    }
+                    res.fails.push(rf("decode", format!("rejects-where-R-accepts:{class}"), format!("reference value {rv}; {msg}")))
+                }
                 Err(k) => {
                     if !proper {
                         res.fails.push(rf("decode", format!("improper-error:{class}"), format!("reference rejects with {k:?}; target raised {class}: {msg}")));
@@ -209,7 +291,8 @@ pub fn check_dec(be: Backend, r: &Ref, ty: &str, b: &[u8], single_fault: bool, g
             // the returned class: the asked type or one of its descendants (Java: or the Unknown<Parent> fallback)
             let mut cls = class.clone();
             if be == Backend::Java && cls.starts_with("Unknown") {
-                cls = asked.clone();
+                // Unknown<X>: the fallback child of X, i.e. an X whose payload matched no child
+                cls = cls["Unknown".len()..].to_string();
             }
             let allowed = cls == asked || r.d.descendants_of(&asked).contains(&cls);
             if !allowed {
@@ -308,6 +391,7 @@ pub fn check_enc(be: Backend, r: &Ref, ty: &str, v: &Value, got: &REnc, back: Op
                         }
                     }
                 }
+                Some(RDec::Err { class, .. }) if class == "NoDeclaredFromBytes" => {}
                 Some(RDec::Err { class, msg, .. }) => {
                     // only a violation when the reference itself round-trips
                     let mut e2 = Events::new();
@@ -359,7 +443,7 @@ pub fn run_remote<T: Target>(prop: &str, be: Backend, seed: u64, thorough: bool,
                             tags.extend(type_tags(&r, &dsc));
                         }
                         let dtags = pdlv_core::dtags::desc_tags(&rd.desc);
-                        for (kind, cases) in [("dec", if thorough { 3200 } else { 400 }), ("enc", if thorough { 1200 } else { 150 })] {
+                        for (kind, cases) in [("dec", if thorough { 4000 } else { 600 }), ("enc", if thorough { 1500 } else { 200 })] {
                             let tag = format!("{prop}/{}/{}/{kind}", rd.idx, ty);
                             let failed = std::cell::Cell::new(false);
                             let tcell = std::cell::RefCell::new(&mut target);
